@@ -114,7 +114,9 @@ func (hc *httpCache) Get() (status Status, response *HTTPResponse) {
 	// 如果done不为空，表示需要等待确认当前请求状态
 	if done != nil {
 		// TODO 后续再考虑是否需要添加timeout（proxy部分有超时，因此暂时可不添加)
+		verifPoint("get.registered")
 		<-done
+		verifPoint("get.woken")
 		// 完成后重新获取当前状态与响应
 		// 此时状态只可能是hit for pass 或者 hit
 		// 而此两种状态的数据缓存均不会立即失效，因此可以从hc中获取
